@@ -1839,7 +1839,7 @@ def fam_derivs(draw):
               'args': [draw(_leaf(U, 'X', 'X')), draw(_leaf(U, 'X', 'X'))]}
     else:
         outers = ['cmod', 'cmodsq', 'power'] if field == 'complex' else \
-            ['sin', 'exp', 'square', 'cosh', 'power']   # cmod* on real: K3
+            ['sin', 'exp', 'square', 'cosh', 'power', 'cmod', 'cmodsq']
         op = {'e': 'chain_deriv', 'outer': draw(st.sampled_from(outers)),
               'x': draw(seeds()),
               'shift': draw(st.none() | seeds()),
